@@ -202,4 +202,24 @@ CLAIMED['C09'] = dict(category='proof',
         'positive atoms.',
    technique='contract-based deductive verification of Core.load on symbolic dimensions (proxy execution, exact normaliser, '
              'z3) against an independent layout model; bounded run-time contracts for the integer topology')
+CLAIMED['C02'] = dict(category='proof',
+   text='Chain of contracts on the real code, all real temperatures, powers, film coefficients, properties and (through '
+        'the geometry contracts) dimensions: (1) one axial step of RoddedRegion.calculate (1-3 ducts) and of the single-node '
+        'region: enthalpy rise of all coolant of the region = step x heating - Q_out with Q_out = sum over the outer duct '
+        'cells of step x face width x h_gap x (new outer surface temperature - gap temperature); 0 with the adiabatic '
+        'option; for six-node regions the same with the one-level lag the model builds in; the outer faces are the cells of '
+        'calculate_xbnds. (2) Reactor.axial_step / _calculate_asm_temperatures hand the region the h-weighted gap '
+        'temperature and the mapped film coefficient, and the gap model the mapped outer surface temperature, of the active '
+        'region; nothing with the adiabatic option. (3) exchange lemma on the real maps of _map_asm2gap: Q_out computed on '
+        'the duct mesh equals the heat credited on the gap mesh, for unequal meshes and unequal corner halves. (4) '
+        'Core.calculate_gap_temperatures on the topology of really loaded cores: ebal[asm] grows by exactly those credits, '
+        'the enthalpy rise of every gap cell is its credits plus conduction, conduction sums to zero.',
+   note=_ASSUME + 'Per enumerated configuration (ring counts 2-3, 1-3 ducts, map sizes 2-3 x 2-4 cells, four core '
+        'layouts); constant properties within a step; gap_step uses the facts C09 proves about Core.load as assumed '
+        'contract (cell widths, symmetric conduction constants, positive flows). Summation over steps and assemblies is '
+        'the meta-argument; bounded run-time contracts check the closure of the core balance (1e-10), per-assembly '
+        'agreement of assembly side and gap credit (1e-9) and the adiabatic case on eight generated 7-position cores. '
+        'No-flow and duct-average gap models are excluded by the property.',
+   technique='contract-based deductive verification (proxy execution of the real region / reactor / core methods, exact '
+             'affine normaliser); bounded run-time contracts for the whole-sweep closure')
 NOT_APPLICABLE = {f'C{i:02d}': 'check not built yet in this round (see DESIGN.md section 12 build order)' for i in range(1, 21)}
